@@ -655,7 +655,10 @@ class Pupil(Plane):
         wavefront = super().multiply(wavefront)
 
         # we inherit the plane's focal length as the wavefront's focal length
-        wavefront.focal_length = self.focal_length
+        # (a pupil without one - a stop, a mask - leaves the wavefront's own
+        # focal length alone)
+        if self.focal_length is not None:
+            wavefront.focal_length = self.focal_length
 
         return wavefront
 
